@@ -4,6 +4,9 @@ import hashlib
 import numpy as np
 
 
+import types as _types
+
+
 def _fp(h, x, depth, seen):
     if depth > 12:
         h.update(b"<deep>")
@@ -63,6 +66,10 @@ def _fp(h, x, depth, seen):
         return
     if isinstance(x, np.dtype):
         h.update(b"dt" + str(x.descr if x.names else x.str).encode())
+        return
+    if isinstance(x, _types.ModuleType):
+        # a module stored in a dict (a namespace for eval): its name, never its contents
+        h.update(b"<module " + getattr(x, "__name__", "?").encode() + b">")
         return
     d = getattr(x, "__dict__", None)
     if d is not None and not isinstance(x, type) and not callable(x):
